@@ -361,8 +361,10 @@ def main(argv):
         'wall_s': wall,
         'violations': len(violations),
     }
-    os.makedirs(os.path.join(ROOT, 'evidence'), exist_ok=True)
-    with open(os.path.join(ROOT, 'evidence', f'{prop}.json'), 'w') as f:
+    # development runs against seeded changes (tools/adopt_mutant.py) must not overwrite the committed evidence
+    evdir = os.environ.get('VERIF_EVIDENCE_DIR') or os.path.join(ROOT, 'evidence')
+    os.makedirs(evdir, exist_ok=True)
+    with open(os.path.join(evdir, f'{prop}.json'), 'w') as f:
         json.dump(ev, f, indent=1, ensure_ascii=False)
     if not os.environ.get('VERIF_KEEP_WORK'):
         shutil.rmtree(workdir, ignore_errors=True)
